@@ -56,6 +56,7 @@ func runFollower(t *rapid.T, focus string) {
 	acked := int64(-1) // highest contiguous offset acknowledged to the current leader
 	ackSet := map[int64]bool{}
 	advertised := int64(-1)
+	labelOther := false
 	tagN := 0
 	unsyncedAtFence, redelivered, truncated, diverged := false, false, false, false
 
@@ -237,6 +238,17 @@ func runFollower(t *rapid.T, focus string) {
 			acked = fh.Offset
 			openStream()
 		},
+		"otherFollowerAcks": func(t *rapid.T) {
+			// the ensemble has a second follower the test does not model: whatever it acknowledges is committed by the
+			// leader without this follower, so the commit offset carried by the next appends may be anywhere up to
+			// the leader's head
+			if term < 0 || int64(len(llog))-1 <= advertised {
+				t.Skip("nothing to commit")
+			}
+			advertised = rapid.Int64Range(advertised+1, int64(len(llog))-1).Draw(t, "commitByOther")
+			logf("other follower acks: commit offset %d", advertised)
+			labelOther = true
+		},
 		"grow": func(t *rapid.T) {
 			if term < 0 {
 				t.Skip("no leader")
@@ -330,7 +342,7 @@ func runFollower(t *rapid.T, focus string) {
 	}
 	check("final log comparison")
 	var labels []string
-	for n, on := range map[string]bool{"unsynced_tail_at_newterm": unsyncedAtFence, "redelivery": redelivered, "truncate": truncated, "diverging_leader_log": diverged} {
+	for n, on := range map[string]bool{"unsynced_tail_at_newterm": unsyncedAtFence, "redelivery": redelivered, "truncate": truncated, "diverging_leader_log": diverged, "commit_ahead_of_this_follower": labelOther} {
 		if on {
 			labels = append(labels, n)
 		}
